@@ -139,6 +139,26 @@ let senc_state (s : senc) : string =
 
 let res_name = function Ok _ -> "ok" | Err -> "err" | Panic -> "panic" | OutOfFuel -> "outoffuel"
 
+(* parse what moov_string prints: T[entry;entry]+o3+p4, entry = kind/type/children *)
+let sentry_of (x : string) : sentry =
+  let i = S.index x '/' in
+  let kind = S.sub x 0 i in
+  let rest = S.sub x (i + 1) (S.length x - i - 1) in
+  let j = S.index rest '/' in
+  let ty = S.sub rest 0 j in
+  let ch = S.sub rest (j + 1) (S.length rest - j - 1) in
+  { se_kind = (match kind with "v" -> SVisual | "a" -> SAudio | _ -> SOtherKind); se_type = cc ty;
+    se_children = uncsv sechild_of ch }
+
+let moov_of (s : string) : mvchild list =
+  if s = "-" || s = "" then []
+  else L.map (fun x ->
+      if S.length x >= 3 && x.[0] = 'T' && x.[1] = '[' then
+        let inner = S.sub x 2 (S.length x - 3) in
+        MVTrak (if inner = "" then [] else L.map sentry_of (split_on ';' inner))
+      else if x.[0] = 'p' then MVPssh (n_of_int (int_of_string (S.sub x 1 (S.length x - 1))))
+      else MVOther (n_of_int (int_of_string (S.sub x 1 (S.length x - 1))))) (split_on '+' s)
+
 let check id what model obs =
   if model = obs then Printf.printf "OK %s\n" id
   else Printf.printf "MISMATCH %s %s model=%s\n" id what
@@ -230,6 +250,12 @@ let () =
               csv_of_ints (L.map L.length samples) ^ "/" ^ string_of_int (L.length rest))
             (split_samples (sample_sizes trex g) payload) in
         check id "GetFullSamples sizes" (one (Some (n_of_int (int_of_string trexd))) ^ "|" ^ one None) obs
+      | ["Q"; id; before; obs] ->
+        let model =
+          match decrypt_init (moov_of before) with
+          | Ok (m2, tis) -> "ok|" ^ moov_string m2 ^ "|" ^ csv info_string tis
+          | Err -> "err" | Panic -> "panic" | OutOfFuel -> "outoffuel" in
+        check id "DecryptInit (several entries / tracks)" model obs
       | ["M"; id; data; obs] ->
         let box = bytes_of_hex data in
         let model = S.concat "|" (L.map (fun p -> res_string senc_state (senc_parse (n_of_int p) box)) [0; 8; 16; 5]) in
